@@ -124,7 +124,7 @@ TrStopHungLoopback ==
     /\ IsEv("StopHung")
     /\ sp.at = "wait" /\ kind = "task"
     /\ \E n \in Nodes : NK(n) = "loop"
-    /\ cfg.n > cfg.cap
+    /\ cfg.n > cfg.slots
     /\ PrintT(<<"KF-HIT", "loopback-stop-deadlock">>)
     /\ sp' = [at |-> "hung", i |-> 0]
     /\ dev' = dev \cup {"loopback-stop-deadlock"}
